@@ -11,7 +11,12 @@ type Log struct {
 	Root    uint64 `json:"root"`
 	L1      uint64 `json:"l1"`
 	Removed bool   `json:"removed,omitempty"`
+	// OverP: the uint256 words on L1 are hash+P and root+P (P = felt modulus); juno reduces them.
+	OverP bool `json:"over_p,omitempty"`
 }
+
+// decoded is what juno's geth layer must hand to the client for the raw log l.
+func (l Log) decoded() Log { l.OverP = false; return l }
 
 func (l Log) line(op string) string {
 	rm := "0"
@@ -71,6 +76,12 @@ type Case struct {
 	Fin2Fails       int  `json:"fin2_fails,omitempty"`
 	WatchFails      int  `json:"watch_fails,omitempty"` // failed attempts of the first subscription
 	PollMicros      int  `json:"poll_us"`
+
+	// Geth: the real l1.GethL1StateProvider (NewGethL1StateProvider -> abigen filterer ->
+	// forwardStateUpdates) is in the loop, fed by an in-process fake L1 JSON-RPC node over a
+	// websocket; the scripted failures above are not used (suberr = the node drops the connection,
+	// finfail = the node fails the finalized-header query).
+	Geth bool `json:"geth,omitempty"`
 
 	Ops []Op `json:"ops"`
 	// Canonical: L2 block numbers grow with (L1 block, delivery order) among never-removed
